@@ -131,6 +131,19 @@ def _call_exceptions(h, guards):
   return False
 
 
+def _no_overload_exception(h, guards):
+  """`<x> is None` where x = self._overload_of(node.op): the operator has no
+  overload (unary minus, invert ...)."""
+  p = h.params()[0]
+  names = set()
+  for a in core.walk_no_nested(h.node):
+    if isinstance(a, ast.Assign) and len(a.targets) == 1 and isinstance(
+        a.targets[0], ast.Name) and core.norm(a.value) == 'self._overload_of(%s.op)' % p:
+      names.add(a.targets[0].id)
+  return any(pol == 'T' and txt in ['%s is None' % n for n in names]
+             for pol, txt in guards)
+
+
 def _origin_of_return(model, fi, ex):
   if ex.value is None:
     return {'none'}
@@ -261,7 +274,7 @@ def check(model, rep, tier):
         'IfExp')
   route(CONV + 'logical_expressions.py', 'LogicalExpressionTransformer', 'BoolOp')
   route(CONV + 'logical_expressions.py', 'LogicalExpressionTransformer', 'UnaryOp',
-        ['overload is None'], 'non-`not` unary operators have no overload')
+        _no_overload_exception, 'non-`not` unary operators have no overload')
   route(CONV + 'logical_expressions.py', 'LogicalExpressionTransformer', 'Compare')
 
   # the emitted operator of each construct handler
